@@ -381,7 +381,24 @@ pub fn gen_case(rng: &mut Rng) -> Case {
         start[0].push(0);
         open.push((0, 0));
     }
+    // one handler of every eighth case emits a large burst: an emission for a later instant first, then 33..70
+    // emissions of one kind for one earlier instant (what a handler buffers is handed over in program order)
+    let mut burst_parent: Option<usize> = if rng.chance(1, 8) { Some(rng.usize_below(msgs.len())) } else { None };
     while msgs.len() < budget && !open.is_empty() {
+        if let Some(p) = burst_parent.take() {
+            let kind = pick_kind(rng);
+            let same = rng.chance(1, 2);
+            let at = if same { msgs[p].at } else { msgs[p].at + grid };
+            msgs.push(Msg { kind: pick_kind(rng), at: at + (1 + rng.below(3)) * grid, emits: Vec::new() });
+            let first = msgs.len() - 1;
+            msgs[p].emits.push(first);
+            for _ in 0..33 + rng.usize_below(38) {
+                msgs.push(Msg { kind, at, emits: Vec::new() });
+                let id = msgs.len() - 1;
+                msgs[p].emits.push(id);
+            }
+            continue;
+        }
         let k = rng.usize_below(open.len());
         let (p, depth) = open.swap_remove(k);
         let children = rng.usize_below(4);
@@ -487,6 +504,9 @@ pub fn cmd(args: &Args) -> Report {
         rep.count("net_zero_delay_followups_before_next_root", obs.family_members);
         rep.count("net_current_instant_pairs", obs.current_instant_pairs);
         rep.count("net_variant_runs", 5);
+        if case.msgs.iter().any(|m| m.emits.len() > 32) {
+            rep.count("net_handlers_emitting_more_than_32_messages", 1);
+        }
         if findings.is_empty() && obs.root_pairs + obs.current_instant_pairs > 0 {
             rep.nontrivial(case_hash(&case));
             if rep.wants_sample() && case.msgs.len() <= 24 {
